@@ -129,6 +129,40 @@ def cases(tier, rng):
         out.append(("lists-random", "honest %d %s %s" % (n, ls, s)))
         if rep % 4 == 0:
             out.append(("lists-random", "auth %d %s %s" % (n, ls, s)))
+    # lists of length exactly num_leafs (and +-1) WITH repetitions: same length / sum / xor / multiset statistics as the
+    # list of all leafs without being a permutation ("all leafs are opened" shortcuts must not fire); exhaustive for n = 4
+    import itertools
+    for l in itertools.product(range(4), repeat=4):
+        out.append(("lists-full-length-n4", "honest 4 s0 %s" % " ".join(map(str, l))))
+    for n in (2, 8, 16, 32):
+        tgt = n * (n - 1) // 2
+        seen = set()
+        for _ in range(400):
+            l = [rng.randrange(n) for _ in range(n)]
+            kind = rng.randrange(4)
+            if kind == 0:       # steer the sum to n(n-1)/2
+                for _ in range(4 * n):
+                    d = tgt - sum(l)
+                    if d == 0:
+                        break
+                    j = rng.randrange(n)
+                    l[j] = min(n - 1, max(0, l[j] + (1 if d > 0 else -1) * rng.randrange(1, abs(d) + 1)))
+            elif kind == 1:     # a permutation with one element duplicated over another
+                l = list(range(n))
+                rng.shuffle(l)
+                l[rng.randrange(n)] = l[rng.randrange(n)]
+            elif kind == 2:     # pairs (i, i, j, j, ...) and mirrored pairs (i, n-1-i)
+                half = [rng.randrange(n) for _ in range(n // 2)]
+                l = [x for i in half for x in ((i, i) if rng.random() < 0.5 else (i, n - 1 - i))]
+            if tuple(l) in seen or len(l) != n:
+                continue
+            seen.add(tuple(l))
+            if len(seen) > (60 if big else 20):
+                break
+            out.append(("lists-full-length", "honest %d s0 %s" % (n, " ".join(map(str, l)))))
+            if rng.random() < 0.3:
+                out.append(("lists-full-length", "honest %d m3 %s" % (n, " ".join(map(str, l + [l[0]])))))
+                out.append(("lists-full-length", "honest %d s0 %s" % (n, " ".join(map(str, l[:-1])))))
     # all leafs / all but one, contiguous ranges
     for h in range(0, 8):
         n = 1 << h
